@@ -271,8 +271,11 @@ kf("C12", "C12-overrides-shallow-clone", "ir.CloneModuleForOverrides shares nest
 kf("C13", "C13-inline-call-result-load", "ir.InlineUserFunctions replaces a call result by a Load that refers forward and is covered by no Emit range (and leaves callee expressions unemitted): the module is ill-formed and an interpreter following the Emit discipline cannot run it; the DXIL pipeline inherits this through prepareModule",
    ["C13|ill-formed|InlineAll|emit-*", "C13|ill-formed|InlineAll|handle-backward:*", "C13|behaviour|InlineAll|malformed-output*|*",
     "C13|ill-formed|dxil-pipeline|emit-*", "C13|ill-formed|dxil-pipeline|handle-backward:*", "C13|behaviour|dxil-pipeline|malformed-output*|*"])
-kf("C13", "C13-inline-return-in-loop", "inlining a callee that returns from inside a loop turns the return into a break of the inner loop only: the inlined code keeps running (step limit exceeded / different result)",
-   ["C13|behaviour|InlineAll|non-termination|*"])
+kf("C13", "C13-inline-return-in-loop", "inlining a callee that returns from inside a loop, a nested block or a switch clause turns the return into an exit of that construct only: the inlined code keeps running (step limit exceeded / different result, e.g. `{ return; } acc = ...;`)",
+   ["C13|behaviour|InlineAll|non-termination|*",
+    # the same defect when the return sits in a nested block or switch clause (or a loop that then ends normally): the statements after the construct still run
+    "C13|behaviour|InlineAll|different-result|F2/callee/*b*", "C13|behaviour|InlineAll|different-result|F2/callee/*l*", "C13|behaviour|InlineAll|different-result|F2/callee/*s*",
+    "C13|behaviour|dxil-pipeline|different-result|F2/callee/*b*", "C13|behaviour|dxil-pipeline|different-result|F2/callee/*l*", "C13|behaviour|dxil-pipeline|different-result|F2/callee/*s*"])
 kf("C13", "C13-mem2reg-loop-carried", "mem2reg's single-block promotion treats a loop body as straight-line code: a variable declared outside `loop { k++; if k > 2u { break; } }` is promoted with every load at the top of the body aliased to the initial value, so the loop never terminates; reached also through the DXIL pipeline",
    ["C13|behaviour|mem2reg|non-termination|*", "C13|behaviour|dxil-pipeline|non-termination|*"])
 kf("C13", "C13-mem2reg-not-idempotent", "running mem2reg (or the DXIL pipeline) a second time changes the module again (appends expressions), contrary to its documented idempotence",
